@@ -800,7 +800,8 @@ def weave_file(srcdir, fcon, out_map, problems):
             rep = {}
             new = weave_fn(sf, it, fc, rep)
             orig_line = text.count('\n', 0, st[it.kw].a) + 1
-            meta = {'kind': 'fn', 'fn': fc.path, 'file': fcon.relpath, 'orig_line': orig_line,
+            orig_end_line = text.count('\n', 0, it.end) + 1
+            meta = {'kind': 'fn', 'fn': fc.path, 'file': fcon.relpath, 'orig_line': orig_line, 'orig_end_line': orig_end_line,
                     'orig_sha': hashlib.sha256(text[it.start:it.end].encode()).hexdigest()[:16],
                     'contract': '%s:%d' % (os.path.relpath(fc.src, os.path.dirname(os.path.dirname(os.path.abspath(__file__)))), fc.lineno),
                     'tags': sorted({x for (_, t, _) in fc.clauses if t for x in t.split()[0].split(',')} | set(fcon.props)),
